@@ -61,3 +61,22 @@ Proof. vm_compute. reflexivity. Qed.
 Example ex_cert_lex_detects : cert_lex (mkLex ex_trie ex_table)
                                [([97; 98], 1%Z); ([97; 98; 99], (-1)%Z); ([98], 2%Z)] 4 = false.
 Proof. vm_compute. reflexivity. Qed.
+
+(* ---- IndexBuilder: scattered homographs, non-indexed rows in between, groups in order of first occurrence ---- *)
+From SudachiVerif Require Import Model.IndexBuild.
+Definition ex_rows : list row :=
+  [([98], 1%Z); ([97], 2%Z); ([98], (-1)%Z); ([97; 98], 0%Z); ([98], 3%Z); ([97], (-1)%Z); ([97], 4%Z)].
+Example ex_index_groups : index_groups ex_rows = [([98], [0; 4]); ([97], [1; 6]); ([97; 98], [3])].
+Proof. vm_compute. reflexivity. Qed.
+Example ex_index_table :
+  index_table ex_rows = Some (hex_bytes "0200000000040000000201000000060000000103000000", [([98], 0); ([97], 9); ([97; 98], 18)]).
+Proof. vm_compute. reflexivity. Qed.
+(* what the seeded variants would produce on the same rows: ids counted over indexed rows only / overwritten homographs *)
+Example ex_counted_over_indexed_differs :
+  map (fun k => rows_with k ex_rows) [[98]; [97]; [97; 98]] = [[0; 4]; [1; 6]; [3]].
+Proof. vm_compute. reflexivity. Qed.
+(* whole UTF-8 strings, and a truncated one *)
+Example ex_chars_ok : map chars_ok_b [hex_bytes "e3818261f0a0ae9f"; hex_bytes "e381"; hex_bytes "81"; []] = [true; false; false; true].
+Proof. vm_compute. reflexivity. Qed.
+Example ex_hexz : hexz_bytes "01z000302z0004"%string = [1; 0; 0; 0; 2; 0; 0; 0; 0].
+Proof. vm_compute. reflexivity. Qed.
